@@ -40,6 +40,9 @@ structure Replay where
   problem : Option String := none
   /-- time at which the surviving direction's own timer ended the exchange (`another.await` -> TimedOut) -/
   survivor : Option Nat := none
+  /-- the surviving direction's pending call was cancelled at this time although its own idle timer (restarted by
+  every transfer) had not run out: no rule of the pipe ends the exchange there -/
+  early : Option Nat := none
 
 /-- replay one log entry against the data-plane machine and the timer model -/
 def replayStep (rp : Replay) (t : Nat) (dir : Dir) (call : Call) (resp : Resp) : Replay :=
@@ -68,6 +71,10 @@ def replayStep (rp : Replay) (t : Nat) (dir : Dir) (call : Call) (resp : Resp) :
       -- a cancellation that is not the direction's own timer (the peer's timer fired, or the exchange
       -- ended) leaves the data-plane state untouched apart from the restart counter
       let peer := match dir with | .left => rp.d.right | .right => rp.d.left
+      if resp == .timeout && peer.phase == .finished && t != survivorDeadline rp.tm dir then
+        -- (the rest of the log is what the implementation did after an end the model does not have)
+        { rp with early := some t, problem := some s!"entry {rp.idx}: cancelled at {t}, own timer at {sd + rp.tm.T}" }
+      else
       let survivor := if resp == .timeout && peer.phase == .finished then some t else rp.survivor
       { rp with d := dstep rp.d dir resp, tm := tm, survivor := survivor }
 
@@ -82,9 +89,10 @@ def c02 (toks : List String) : String :=
   match toks with
   | "duplex" :: t :: _n :: rest =>
     let rp := replayAll { tm := ⟨t.toNat!, 0, 0, 0, 0, none⟩ } rest
-    match rp.problem with
-    | some p => s!"diverge {p}"
-    | none =>
+    match rp.early, rp.problem with
+    | some _, _ => "running"
+    | none, some p => s!"diverge {p}"
+    | none, none =>
       match rp.tm.expired, rp.d.outcome with
       | some c, _ => s!"timedout {c}"
       | none, .error => match rp.survivor with
